@@ -95,6 +95,8 @@ def correspond(ctx):
            'distribution': dict(res['distribution'], shoelace_and_rectangle=nrect, shape_constructors=r2['n'] - nrect), 'samples': res['samples'] + meta[:1], 'kinds': {'kernels': len(names), 'hand_models': 3}}
     if r2['failing']: out['first_disagreement'] = [meta[i] for i in r2['failing'][:3]]
     elif res['failing']: out['first_disagreement'] = res.get('first_disagreement')
+    # BezierPath.signed_area / area / direction as regenerated from path/__init__.py (flatten(8) + shoelace; Gen/PathOps.v, Proofs/Bridge5.v)
+    kernels.merge_cross_check(out, 'C10', ['Path_signed_area', 'Path_area', 'Path_direction'], ctx.n(25, 300), rng, label='regenerated-kernels-round5')
     return out
 
 
